@@ -352,6 +352,7 @@ theorem k_decodeEdifactSegment_eq (fuel : Nat) (bs : List Nat) (hb : ∀ b ∈ b
   rw [hk]
   exact edi_loop fuel (by omega) bs hb _ (fun _ _ _ => rfl) (bs.length - off) off result fuel (Nat.le_refl _) hoff (by omega)
 
+when_kernel Gzx.Gen.K02e.decodeEdifactSegment in
 /-- non-vacuity: "AB" + unlatch in the third value -/
 example : Gen.K02e.decodeEdifactSegment 10 (bytesI [0x04, 0x27, 0xC0, 9]) 0 0 [] = .ok ([65, 66], 3, 0, [65, 66]) := by decide
 
